@@ -233,6 +233,8 @@ def parse_obs(o):
             res.setdefault("rib6", {})
             for e in it[1:]:
                 res["rib6"][e[0]] = [(p[0], p[1] == "1") for p in e[1:]]
+        elif it[0] == "adjraw":
+            res.setdefault("adjraw", {})[it[1]] = {e[0].split("#")[0]: (e[1] if len(e) > 1 else "") for e in it[2:]}
         elif it[0] == "adjin":
             res["adjin"][it[1]] = ["%s %s" % (e[0], e[3] if len(e) > 3 else "") for e in it[2:]]
             res["adjin_raw"][it[1]] = [(e[0].split("#")[0], e[1] == "1", e[3] if len(e) > 3 else "") for e in it[2:]]
